@@ -102,6 +102,7 @@ def pre_cli(kind: int, form: int, v: int, hi: int, s: str, second: int, v2: int)
         return False
     if v < 0 and not (kind == 0 and form == 1):
         return False                      # signed text is realised by int(): small magnitudes only
+                                          # (signed range bounds: see h_ranges)
     if kind == 0 and form == 1 and v > P.S:
         return False
     if kind != 2 and len(s) != 0:
@@ -144,6 +145,7 @@ def classify_cli(kind, form, v, hi, s, second, v2):
     thorough=dict(V=10 ** 6, S=40, L=5, timeout=900, per_path_timeout=60),
     nshards=dict(quick=18, thorough=18),
     reach=["int_ok", "int_signed_ok", "int_rejected", "str_ok", "bool_canonical", "bool_garbage", "multi_range",
+
            "unknown_rejected", "two_options"],
     units=["options.OptionParser.define", "options.OptionParser.parse_command_line",
            "options.OptionParser.__getattr__", "options._Option.parse", "options._Option.value",
@@ -153,6 +155,7 @@ def classify_cli(kind, form, v, hi, s, second, v2):
            "the erroneous outcome 'rejected' is any Exception (Tornado raises Error / ValueError)",
            "measured CrossHair limits: int() realises signed text and dict lookup realises option names, so "
            "non-negative ints 0..V are fully symbolic (digit arithmetic), signed text (+n / -n) only |n| <= S, "
+           "signed range bounds and list items: harness h_ranges, "
            "non-integer text and unknown names are pooled words or <= 2 letters from ALPHA by symbolic index; "
            "bool spellings are the 33 pooled words or <= 2 letters of 'tf01ynTx' by symbolic index (str.lower on a "
            "free symbolic string did not finish); the str option value (any <= L code points) is fully symbolic"],
@@ -202,11 +205,13 @@ def h_cli(kind: int, form: int, v: int, hi: int, s: str, second: int, v2: int):
         elif form == 1:
             arg, want = "--nums=" + _digits(v) + ":" + _digits(hi), list(range(v, hi + 1))
             reached("multi_range")
+
         elif form == 2:
             arg, want = "--nums=" + _digits(v) + "," + _digits(hi), [v, hi]
         else:
             arg = "--nums=" + _digits(v) + ":" + _digits(hi) + "," + _digits(v2)
             want = list(range(v, hi + 1)) + [v2]
+
         check = ("nums", want)
     else:                 # unknown option name
         w = UNKNOWN_WORDS[v] if form < 2 else _word(hi - v, v, v2)
@@ -262,6 +267,78 @@ def h_cli(kind: int, form: int, v: int, hi: int, s: str, second: int, v2: int):
             assert p.other == v2 and type(p.other) is int, "--other=%d parsed to %r" % (v2, p.other)
         else:
             assert p.other == 99
+
+
+# ------------------------------------------------------------------------------------------------ signed ranges
+def _conc(v, lo):
+    """concrete copy of a small solver int (branching), so that its text is an ordinary str"""
+    k = lo
+    while k < v:
+        k += 1
+    return k
+
+
+def pre_ranges(lo: int, hi: int, x: int, form: int, cfg: bool) -> bool:
+    return (-P.R <= lo <= P.R and 0 <= hi - lo <= P.W and -P.R <= x <= P.R and 0 <= form <= 4
+            and in_shard(lo + P.R))
+
+
+@harness(
+    pre=pre_ranges,
+    quick=dict(R=3, W=3, timeout=100),
+    thorough=dict(R=6, W=5, timeout=600),
+    nshards=dict(quick=7, thorough=13),
+    reach=["range_negative_to_zero", "range_both_negative", "range_zero_zero", "range_across_zero",
+           "range_in_list", "range_cfg"],
+    units=["options._Option.parse", "options.OptionParser.parse_command_line",
+           "options.OptionParser.parse_config_file"],
+    stubs=["lo in -R..R, hi in lo..lo+W, extra list item x in -R..R are solver ints made concrete per path by "
+           "branching (int() realises signed text anyway); forms: 'lo:hi', 'lo:hi,x', 'x,lo:hi', 'lo:hi,x:x', "
+           "'x,lo:hi,x'; command line or config-file string",
+           "OptionParser.print_help no-op; config file reading/exec replaced as in h_cfg"],
+    outside=["bounds beyond +-R, ranges wider than W+1 values (larger non-negative bounds: h_cli)"],
+)
+def h_ranges(lo: int, hi: int, x: int, form: int, cfg: bool):
+    """multiple int option given ranges with signed bounds: the value is exactly range(lo, hi+1) in place."""
+    clo, chi, cx = _conc(lo, -P.R), _conc(hi, -P.R), _conc(x, -P.R)
+    r = "%d:%d" % (clo, chi)
+    full = list(range(clo, chi + 1))
+    assert len(full) == chi - clo + 1 and full[0] == clo and full[-1] == chi
+    if form == 0:
+        text, want = r, full
+    elif form == 1:
+        text, want = r + ",%d" % cx, full + [cx]
+    elif form == 2:
+        text, want = "%d," % cx + r, [cx] + full
+    elif form == 3:
+        text, want = r + ",%d:%d" % (cx, cx), full + [cx]
+    else:
+        text, want = "%d,%s,%d" % (cx, r, cx), [cx] + full + [cx]
+    if form != 0:
+        reached("range_in_list")
+    if clo < 0 and chi == 0:
+        reached("range_negative_to_zero")
+    if chi < 0:
+        reached("range_both_negative")
+    if clo == 0 and chi == 0:
+        reached("range_zero_zero")
+    if clo < 0 < chi:
+        reached("range_across_zero")
+    p = _parser()
+    raised = None
+    try:
+        if cfg:
+            reached("range_cfg")
+            _run_config(p, {"nums": text})
+        else:
+            p.parse_command_line(["prog", "--nums=" + text])
+    except Exception as e:
+        raised = e
+    assert raised is None, "--nums=%s was rejected: %r" % (text, raised)
+    got = p.nums
+    assert got == want and all(type(g) is int for g in got), \
+        "nums given %r parsed to %r, denotes %r" % (text, got, want)
+    _defaults_except(p, "nums")
 
 
 # ------------------------------------------------------------------------------------------------ config
